@@ -143,7 +143,8 @@ def main(run):
         "unit-sweep")
     for w in (("2", "32") if quick else ("1", "2", "3", "32", "64")):
         for b12 in (0, 1):
-            add(G.rpd_exhaustive(w, b12, G.REQ_ALPHABET, 4 if quick else 5), "request-exhaustive")
+            n = (4 if w == "32" else 3) if quick else (5 if w in ("2", "32") else 4)
+            add(G.rpd_exhaustive(w, b12, G.REQ_ALPHABET, n), "request-exhaustive")
     add(G.sst_exhaustive(5 if quick else 7), "sender-exhaustive")
     # seeded random aimed at the boundaries
     add((G.rpu_random(r) for _ in range(6000 if quick else 150000)), "unit-random")
@@ -244,7 +245,7 @@ def main(run):
             if nbad_e <= 2:
                 run.violation("property fails on the implementation (client/server exchange): " + "; ".join(fails[:2]),
                               "case: %s\nimpl: %s\n" % (ln, o), tag="exch%d" % nbad_e)
-        elif c and mline != " ".join(c[1]):
+        elif c and " ".join(x.split("/")[0] for x in mline.split()) != " ".join(c[1]):
             nbad_e += 1
             if nbad_e <= 2:
                 run.violation("client/server exchange: server state differs from the model (repaired behaviour)",
